@@ -75,6 +75,9 @@ func Guard(f func()) (msg string, panicked bool) {
 	return
 }
 
+// HungOnce is set when a call had to be abandoned.
+var HungOnce bool
+
 // GuardTimed is Guard with a watchdog; hung reports that f did not return in time.
 func GuardTimed(f func(), d time.Duration) (msg string, panicked, hung bool) {
 	done := make(chan struct{})
@@ -86,6 +89,7 @@ func GuardTimed(f func(), d time.Duration) (msg string, panicked, hung bool) {
 	case <-done:
 		return msg, panicked, false
 	case <-time.After(d):
+		HungOnce = true // the abandoned goroutine may spin for ever: the runner stops after this case
 		return "no return within " + d.String(), false, true
 	}
 }
@@ -135,6 +139,9 @@ func CasesMain(name string, run func(c *Case, st *CaseStats, seed int64), finish
 	t0 := time.Now()
 	if *cases != "" {
 		err := LoadCases(strings.Split(*cases, ","), func(c *Case) {
+			if HungOnce {
+				return
+			}
 			st.Cases++
 			st.PerFn[c.Fn]++
 			if st.Cases%997 == 1 && len(st.Samples) < 6 {
